@@ -3018,7 +3018,12 @@ class MNOT(M_Pattern_One):
         return self.static_tags
 
     def _leaf_asts(self) -> tp_Set[type[AST]] | None:
-        leaf_asts = _LEAF_ASTS_FUNCS.get((p := self.pat).__class__, _leaf_asts_default)(p)
+        p = self.pat
+
+        if not (isinstance(p, type) or p is ... or (p.__class__ is MTYPES and not p.fields)):  # leaf types of other patterns are only an upper bound for what they match (fields may still fail), so their complement would exclude nodes that this MNOT matches
+            return ASTS_LEAF__ALL
+
+        leaf_asts = _LEAF_ASTS_FUNCS.get(p.__class__, _leaf_asts_default)(p)
 
         if not leaf_asts:
             if leaf_asts is None:
